@@ -1,6 +1,7 @@
 import Setec.Proofs.DB
 import Setec.Spec.DBMon
 import Setec.Proofs.MonitorsSound
+import Setec.Generated.Facts
 /-!
 # C02 - the versioned store behaves exactly as its sequential specification
 
@@ -215,5 +216,24 @@ from the empty database: the monitors demand nothing the specification does not.
 theorem all_monitor_clauses_sound (xs : List Call) (c : Caller) (op : Op) (aok sok : Bool) :
     ∀ cl ∈ DBMon.clauses, cl.2.2 (MonSound.obsOf (run Cfg.std KV.empty xs) c op aok sok) = true :=
   MonSound.all_clauses_sound xs c op aok sok
+
+/-! ### T1: the four mutators, statement by statement
+
+The model's `KV.put`, `setActive`, `deleteVersion` and `deleteSecret` (Model/KV.lean) are
+transcriptions of these bodies: look the secret up; refuse what must be refused; mutate the map
+in memory; save; on a failed save undo exactly that mutation (delete the version just added and
+step the counter back by one; restore the previous active version; put the deleted version or
+secret back) and report the error.  The extractor hands over each function's top-level
+statements with white space collapsed; this is what they are expected to be, to the letter.
+A rewrite of one of them - harmless or not - stops this theorem, and the check then looks for an
+input on which the behaviour differs. -/
+
+def expectedKvMutators : List (String × List String) := [
+  ("put", ["s := kv.secrets[name]", "if s == nil { kv.secrets[name] = &secret{ LatestVersion: 1, ActiveVersion: 1, Versions: map[api.SecretVersion]byteString{ 1: byteString(value), }, } if err := kv.save(); err != nil { delete(kv.secrets, name) return 0, err } return 1, nil }", "bsValue := byteString(value)", "if cur, ok := s.Versions[s.LatestVersion]; ok && cur == bsValue { return s.LatestVersion, nil }", "s.LatestVersion++", "s.Versions[s.LatestVersion] = bsValue", "if err := kv.save(); err != nil { delete(s.Versions, s.LatestVersion) s.LatestVersion-- return 0, err }", "return s.LatestVersion, nil"]),
+  ("setActive", ["if version == api.SecretVersionDefault { return errors.New(\"invalid version\") }", "secret := kv.secrets[name]", "if secret == nil { return ErrNotFound }", "if _, ok := secret.Versions[version]; !ok { return ErrNotFound }", "if secret.ActiveVersion == version { return nil }", "old := secret.ActiveVersion", "secret.ActiveVersion = version", "if err := kv.save(); err != nil { secret.ActiveVersion = old return err }", "return nil"]),
+  ("deleteVersion", ["if version == api.SecretVersionDefault { return errors.New(\"invalid version\") }", "secret := kv.secrets[name]", "if secret == nil { return fmt.Errorf(\"secret %q: %w\", name, ErrNotFound) } else if version == secret.ActiveVersion { return errors.New(\"cannot delete active version\") }", "old, ok := secret.Versions[version]", "if !ok { return fmt.Errorf(\"version %v: %w\", version, ErrNotFound) }", "delete(secret.Versions, version)", "if err := kv.save(); err != nil { secret.Versions[version] = old return err }", "return nil"]),
+  ("deleteSecret", ["secret := kv.secrets[name]", "if secret == nil { return nil }", "delete(kv.secrets, name)", "if err := kv.save(); err != nil { kv.secrets[name] = secret return err }", "return nil"])]
+
+theorem fact_mutators_as_transcribed : Facts.kvMutatorBodies = expectedKvMutators := by rfl
 
 end Setec.C02
